@@ -15,6 +15,7 @@
 #include <nix/types.hpp>
 
 #include <limits>
+#include <cmath>
 #include <type_traits>
 #include <cstddef>
 
@@ -154,7 +155,8 @@ template<typename T>
 inline typename std::enable_if<std::is_integral<T>::value, double>::type
 converts_to_double(T num, const std::string &msg_if_fail) {
     double dbl = static_cast<double>(num);
-    if (static_cast<T>(dbl) != num) {
+    // converting back is only defined while dbl is below max(T) + 1 (a power of two, so exact as a double)
+    if (dbl >= std::ldexp(1.0, std::numeric_limits<T>::digits) || static_cast<T>(dbl) != num) {
         throw OutOfBounds(msg_if_fail);
     }
     return dbl;
